@@ -213,6 +213,31 @@ def rule_units(ctx, rid):
             ctx.ok(rid, "units/%s" % v, "%s m both ways" % e[1])
 
 
+_HPF = {}
+
+
+def helper_pushes_first(F, g):
+    """does helper g push (a copy / conversion of) element 0 of one of its slice parameters onto a Vec?"""
+    if g.id in _HPF:
+        return _HPF[g.id]
+    _HPF[g.id] = False
+    w = Walker(g, max_visits=2, max_paths=2000)
+    hit = [False]
+
+    def on_call(path, bb, t, name, args):
+        n = name or ""
+        if re.search(r"Vec::<.*>::push$", n) and len(args) == 2:
+            for tt in gc.find_terms(args[1], lambda x: (x[0] == "i" and x[2] == 0) or (x[0] == "call" and x[1] and re.search(r"::index$", x[1]) and len(x[2]) > 1 and x[2][1][0] == "const" and x[2][1][2] == 0)):
+                base = tt[1] if tt[0] == "i" else tt[2][0]
+                r2, ch2 = field_chain(base)
+                if isinstance(r2, tuple) and r2[0] == "param":
+                    hit[0] = True
+        return None
+    w.run(on_call=on_call)
+    _HPF[g.id] = hit[0]
+    return hit[0]
+
+
 def rule_closure(ctx, rid):
     """closing point appended on export iff removed on import, per shape kind"""
     F = ctx.F
@@ -255,6 +280,12 @@ def rule_closure(ctx, rid):
                 if ch2 and "points" in ch2:
                     idx0 = True
             if idx0:
+                info.setdefault(v, set()).add("push-first")
+        # the closing point may be appended by a helper that receives the shape's points
+        g = F.fns.get(callee_id(t))
+        if g is not None and g.id.startswith(PFX) and g.id != f.id and g.body:
+            passes_points = any(a is not None and "points" in (field_chain(a)[1] or []) for a in args)
+            if passes_points and helper_pushes_first(F, g):
                 info.setdefault(v, set()).add("push-first")
         return None
 
